@@ -318,10 +318,11 @@ def run_check(cid, tier, seed, n_override=None, wall_override=None, workers=None
     wall_s = time.time() - t0
     if harness_errors:
         exit_code = 2
-        for h in harness_errors[:5]:
+        for h in harness_errors[:3]:
             lines.append("HARNESS-ERROR %s %s" % (cid, h.strip().splitlines()[-1] if h.strip() else h))
-            if "Traceback" in h:
-                sys.stderr.write(h + "\n")
+        first_tb = next((h for h in harness_errors if "Traceback" in h), None)
+        if first_tb:
+            sys.stderr.write(first_tb[-3000:] + "\n")
 
     # ---- evidence
     if write_evidence:
